@@ -89,7 +89,9 @@ def values_for(d, salt):
     if 110 <= salt % 1000 < 120:
         # 110: negative zeros everywhere; 111: all entries equal; 112: 0.0 / -0.0 / duplicates mixed; 113: equal negatives
         # (salt // 1000 shifts the cycle: the second operand of a pair)
-        cyc = {110: [-0.0], 111: [2.0], 112: [0.0, -0.0, 3.0, 3.0, -0.0], 113: [-1.5]}[salt % 1000]
+        # 117: Python ints; 118: many decimals / large / tiny
+        cyc = {110: [-0.0], 111: [2.0], 112: [0.0, -0.0, 3.0, 3.0, -0.0], 113: [-1.5], 117: [1, 2, 3, -2, 4],
+               118: [0.1, 1.0 / 3.0, 1e15, 1e-7, 123456.789, -0.3]}[salt % 1000]
         if not d[1]:
             return {(): cyc[(salt // 1000) % len(cyc)]}
         out, c = {}, (salt // 1000)
@@ -124,23 +126,48 @@ def values_for(d, salt):
 
 
 def build(model, name, d, vals, kind="converter"):
-    """create the operand on the real model; numbers stay Python numbers"""
+    """create the operand on the real model; numbers stay Python numbers.
+    kind: converter | constant | stock (entries are stocks holding the value as initial value) | flow | timed (converter
+    whose entries are computed: time()*(v/2) + v/2, = v at t=1) | default (set up with ONE default value where all
+    entries are equal, an int where possible)"""
     if d[0] == "num":
         x = float(d[1])
         return int(d[1]) if "." not in d[1] and "e" not in d[1] else x
-    e = getattr(model, kind)(name)
+    base = {"timed": "converter", "default": "converter"}.get(kind, kind)
+    e = getattr(model, base)(name)
+    same = len(set(vals.values())) == 1
     if not d[1]:
-        e.equation = vals[()]
+        if kind == "stock":
+            e.initial_value = float(vals[()])
+        else:
+            e.equation = vals[()]
     elif d[3]:
         if not d[2]:
             e.setup_named_vector({kstr(k): vals[(kstr(k),)] for k in d[1]})
         else:
             e.setup_named_matrix({kstr(k): {kstr(l): vals[(kstr(k), kstr(l))] for l in d[2]} for k in d[1]})
     else:
-        if not d[2]:
+        one = next(iter(vals.values()))
+        if kind == "default" and same:
+            one = int(one) if float(one).is_integer() and not d[2] else one
+            if not d[2]:
+                e.setup_vector(len(d[1]), one)
+            else:
+                e.setup_matrix([len(d[1]), len(d[2])], float(one))
+        elif not d[2]:
             e.setup_vector(len(d[1]), [vals[(kstr(k),)] for k in d[1]])
         else:
             e.setup_matrix([len(d[1]), len(d[2])], [[vals[(kstr(k), kstr(l))] for l in d[2]] for k in d[1]])
+    if kind == "timed":
+        from BPTK_Py import sd_functions as sd
+        if not d[1]:
+            e.equation = sd.time() * (vals[()] / 2) + vals[()] / 2
+        else:
+            for path, v in vals.items():
+                cur = e
+                for k in path[:-1]:
+                    cur = cur[k]
+                cur[path[-1]] = sd.time() * (v / 2) + v / 2
     return e
 
 
@@ -339,7 +366,7 @@ def compare_values(got, exp, exact):
 
 # ------------------------------------------------------------------ case enumeration
 def shape_list(K, quick):
-    numbers = [("num", "2.0"), ("num", "-1.5"), ("num", "3")]
+    numbers = [("num", "2.0"), ("num", "-1.5"), ("num", "3"), ("num", "0")] + ([] if quick else [("num", "0.0"), ("num", "1e-07")])   # incl. falsy
     els = [d_scalar()] + [d_vec(m) for m in range(1, K + 1)] + [d_mat(m, n) for m in range(1, K + 1) for n in range(1, K + 1)]
     named = []
     for m in range(1, K + 1):
@@ -350,6 +377,7 @@ def shape_list(K, quick):
             named.append(d_nvec(names[:-1] + "z"))                 # one different name
     named.append(d_nvec(["1", "0", "2"][:min(K, 3)]))              # numeric names, permuted
     named.append(d_nvec(["0", "1", "2"][:min(K, 3)]))
+    named.append(d_nvec(["z-w", "Ab"]))                                # other name kinds
     named += [d_nmat("xy", "ab"), d_nmat("yx", "ab"), d_nmat("xy", "ba"), d_nmat(["0", "1"], ["0", "1"]),
               d_nmat(["1", "0"], ["1", "0"]), d_nmat("x", "abc"), d_nmat("xyz", "a")]
     return numbers, els, named
@@ -1227,6 +1255,204 @@ def lean_code(c):
     return f"(.leaf {c[1]} {c[2]})" if c[0] == "leaf" else f"(.{c[0]} {c[1]} {c[2]})"
 
 
+# ------------------------------------------------------------------ wave 7: further API surfaces
+REUSE_EQS = [          # (label, tree) — equations whose results have different shapes / index kinds
+    ("vec3", ("op", "add", ("el", "a3", d_vec(3)), ("el", "b3", d_vec(3)))),
+    ("vec2", ("op", "mul", ("el", "a2", d_vec(2)), ("num", "2.0"))),
+    ("mat22", ("op", "sub", ("el", "M22", d_mat(2, 2)), ("el", "N22", d_mat(2, 2)))),
+    ("mat23", ("op", "add", ("el", "M23", d_mat(2, 3)), ("el", "s", d_scalar()))),
+    ("mat32.vec2", ("op", "dot", ("el", "M32", d_mat(3, 2)), ("el", "a2", d_vec(2)))),
+    ("named ab", ("op", "add", ("el", "nab", d_nvec("ab")), ("el", "nab2", d_nvec("ab")))),
+    ("named abc", ("op", "mul", ("el", "nabc", d_nvec("abc")), ("num", "3"))),
+    ("scalar", ("op", "dot", ("el", "a2", d_vec(2)), ("el", "c2", d_vec(2)))),
+]
+
+
+def run_reuse(t1, t2):
+    """R.equation = t1, then R.equation = t2 on the SAME converter; then R is used as an operand (Q = R + R).
+    returns (line of R, values of R, line of Q, values of Q, exception text, leaf values)"""
+    both = ("op", "add", t1, t2)
+    vals, leaves = tree_values(both)
+    m = new_model()
+    try:
+        els = {nm: build(m, nm, d, vals[nm]) for nm, d in sorted(leaves.items())}
+        R = m.converter("R")
+        R.equation = tree_build(t1, els)
+        R.equation = tree_build(t2, els)
+        line, got = observe(R)
+        if tree_depth(t2) and spec_tree(t2, vals)[0] == ():
+            line, got = "scalar | " + fs_tokens(R._function_string), {(): safe_eval(R)}      # (R keeps the arrayed flag of the first equation)
+        try:
+            Q = m.converter("Q")
+            Q.equation = R + R
+            qline, qgot = observe(Q)
+        except Exception as ex:
+            qline, qgot = "none", None
+        return line, got, qline, qgot, None, vals
+    except pyfrag.Unsupported:
+        raise
+    except Exception as ex:
+        return "none", None, "none", None, f"{type(ex).__name__}: {ex}", vals
+
+
+def run_object_reuse(t, salt=0):
+    """the SAME operator object assigned to two converters and to a stock: (line of R1, line of R2 renamed, values of R2)"""
+    vals, leaves = tree_values(t, salt)
+    m = new_model()
+    try:
+        els = {nm: build(m, nm, d, vals[nm]) for nm, d in sorted(leaves.items())}
+        obj = tree_build(t, els)
+        R1 = m.converter("R"); R1.equation = obj
+        l1, g1 = observe(R1)
+        S = m.stock("S9"); S.equation = obj
+        R2 = m.converter("R2"); R2.equation = obj
+        l2, g2 = observe(R2)
+        return l1, l2, g2, None
+    except pyfrag.Unsupported:
+        raise
+    except Exception as ex:
+        return "none", "none", None, f"{type(ex).__name__}: {ex}"
+
+
+def plot_values(R):
+    """the observation channel Element.plot(return_df=True): {key path: value at t=1}; a matrix is read row by row"""
+    keys = list(R._elements.equations)
+    out = {}
+    if R[keys[0]]._elements.vector_size() == 0:
+        df = R.plot(return_df=True)
+        for k in keys:
+            out[(k,)] = df[k][1.0]
+        return out, list(df.columns)
+    for k in keys:
+        df = R[k].plot(return_df=True)
+        for l in R[k]._elements.equations:
+            out[(k, l)] = df[l][1.0]
+    return out, None
+
+
+def run_surfaces(chk, note_violation, facts):
+    """streams for the rows of the wave-7 coverage table that the main streams do not reach"""
+    import numpy as np
+    rows = {}
+    # -- result re-use: the target already holds the sub-elements of an earlier equation
+    for l1, t1 in REUSE_EQS:
+        for l2, t2 in REUSE_EQS:
+            line, got, qline, qgot, exc, vals = run_reuse(t1, t2)
+            fresh = run_tree(t2)
+            rows["target re-used (first/second equation)"] = rows.get("target re-used (first/second equation)", 0) + 1
+            chk.case(("reuse", l1, l2), nontrivial=True)
+            rep = {"kind": "reuse", "first": t1, "second": t2}
+            if fresh[0] == "none" or line == "none":
+                continue
+            _, _, exp = spec_tree(t2, vals)
+            exp = {k: float(v) for k, v in exp.items()}
+            dd = compare_values(got, exp, exact=False) if l2 != "scalar" else (None if close(got.get(()), exp[()], False) else ([], got.get(()), exp[()]))
+            txt = f"R.equation = {tree_show(t1)} ({l1}), then R.equation = {tree_show(t2)} ({l2})"
+            if dd is not None:
+                what = f"R has the entries {dd[1]}, numpy's result has {dd[2]}" if dd[0] == "keys" else f"element {dd[0]} evaluates to {dd[1]!r}, numpy gives {dd[2]}"
+                note_violation("wrong-value:result-reuse", 10 + len(got), f"{txt}: {what}", dict(rep, observed=repr(dd[1]), expected=dd[2]))
+            elif line != fresh[0] and l2 != "scalar":
+                note_violation("wrong-value:result-reuse", 50, f"{txt}: the equations of R differ from those on a fresh converter ({line[:60]}… vs {fresh[0][:60]}…)", rep)
+            elif l2 != "scalar" and qgot is not None:
+                q2 = compare_values(qgot, {k: 2.0 * v for k, v in exp.items()}, exact=False)
+                if q2 is not None:
+                    note_violation("wrong-value:result-reuse", 60, f"{txt}, then Q = R + R: {q2}", dict(rep, then="Q=R+R"))
+            elif l2 != "scalar" and qgot is None:
+                note_violation("wrong-value:result-reuse", 61, f"{txt}, then Q = R + R is refused", dict(rep, then="Q=R+R"))
+    # -- the same operator OBJECT in several equations (first vs second use of the object)
+    rng = chk.rng.fork("c10-objreuse")
+    tg = TGen(rng, bad=0)
+    for i in range(150 if chk.quick else 1500):
+        shape = rng.choice([(2,), (3,), (2, 2), (2, 3), (1, 2)])
+        t = tg.expr(shape, rng.range(1, 3))
+        if t[0] != "op":
+            continue
+        try:
+            l1, l2, g2, exc = run_object_reuse(t)
+        except pyfrag.Unsupported:
+            continue
+        rows["operator object used in several equations"] = rows.get("operator object used in several equations", 0) + 1
+        chk.case(("objreuse", tree_wire(t)), nontrivial=True)
+        if l1 != l2:
+            note_violation("wrong-value:operator-object-reuse", 100 + len(tree_show(t)),
+                           f"{tree_show(t)} assigned to a converter, a stock and a second converter: the second converter's equations differ ({l2[:70]}… vs {l1[:70]}…)",
+                           {"kind": "objreuse", "tree": t})
+    # -- observation channel plot(return_df=True), flow targets, two models side by side
+    chan = [("op", "add", ("el", "a", d_vec(3)), ("el", "b", d_vec(3))), ("op", "dot", ("el", "M", d_mat(2, 3)), ("el", "b", d_vec(3))),
+            ("op", "mul", ("el", "M", d_mat(2, 3)), ("num", "-1.5")), ("op", "sub", ("el", "na", d_nvec("ab")), ("el", "nb", d_nvec("ba"))),
+            ("op", "dot", ("el", "M", d_mat(2, 3)), ("op", "add", ("el", "N", d_mat(3, 2)), ("el", "N2", d_mat(3, 2)))),
+            ("op", "div", ("el", "a", d_vec(3)), ("agg", "sum", "b", d_vec(3)))]
+    for t in chan:
+        vals, leaves = tree_values(t)
+        m = new_model()
+        els = {nm: build(m, nm, d, vals[nm]) for nm, d in sorted(leaves.items())}
+        R = m.converter("R"); R.equation = tree_build(t, els)
+        _, _, exp = spec_tree(t, vals)
+        got, cols = plot_values(R)
+        rows["channel plot(return_df=True)"] = rows.get("channel plot(return_df=True)", 0) + 1
+        chk.case(("plot", tree_wire(t)), nontrivial=True)
+        dd = compare_values(got, {k: float(v) for k, v in exp.items()}, exact=False)
+        if dd is not None:
+            note_violation("wrong-value:plot-channel", 30, f"{tree_show(t)}: plot(return_df=True) shows {dd[1]!r} for {dd[0]}, numpy gives {dd[2]}", {"kind": "tree", "tree": t, "salt": 0})
+        # flow target: the entries are max(0, entry)
+        m = new_model()
+        els = {nm: build(m, nm, d, vals[nm]) for nm, d in sorted(leaves.items())}
+        F = m.flow("F")
+        try:
+            F.equation = tree_build(t, els)
+            _, fgot = observe_stock_fresh(F) if False else (None, {tuple(k): None for k in ()})
+            fvals = {}
+            for k in F._elements.equations:
+                sub = F[k]
+                if sub._elements.vector_size() == 0:
+                    fvals[(k,)] = safe_eval(sub)
+                else:
+                    for l in sub._elements.equations:
+                        fvals[(k, l)] = safe_eval(sub[l])
+            rows["target kind flow"] = rows.get("target kind flow", 0) + 1
+            dd = compare_values(fvals, {k: max(0.0, float(v)) for k, v in exp.items()}, exact=False)
+            if dd is not None:
+                note_violation("wrong-value:flow-target", 31, f"flow F := {tree_show(t)}: {dd[0]} is {dd[1]!r}, max(0, numpy entry) is {dd[2]}", {"kind": "tree", "tree": t, "salt": 0, "target": "flow"})
+        except Exception:
+            pass
+        # constant target: a constant cannot hold an equation — accepted means values
+        m = new_model()
+        els = {nm: build(m, nm, d, vals[nm]) for nm, d in sorted(leaves.items())}
+        C = m.constant("C")
+        rows["target kind constant"] = rows.get("target kind constant", 0) + 1
+        try:
+            C.equation = tree_build(t, els)
+            cvals = {}
+            for k in C._elements.equations:
+                sub = C[k]
+                if sub._elements.vector_size() == 0:
+                    cvals[(k,)] = safe_eval(sub)
+                else:
+                    for l in sub._elements.equations:
+                        cvals[(k, l)] = safe_eval(sub[l])
+            dd = compare_values(cvals, {k: float(v) for k, v in exp.items()}, exact=False)
+            if dd is not None:
+                note_violation("constant-target-operator-dropped", 32, f"constant C := {tree_show(t)} is accepted: {dd[0]} is {dd[1]!r}, numpy gives {dd[2]} "
+                               "(Constant.equation tests `equation == None`, truthy for an operator: the equation is dropped, the entries keep the 0 of the set-up)",
+                               {"kind": "tree", "tree": t, "salt": 0, "target": "constant"})
+        except Exception:
+            pass
+    # two models alive at the same time, same element names, different shapes
+    m1, m2 = new_model(), new_model()
+    A1 = build(m1, "A", d_mat(2, 2), values_for(d_mat(2, 2), 1)); A2 = build(m2, "A", d_mat(2, 3), values_for(d_mat(2, 3), 2))
+    v1 = build(m1, "v", d_vec(2), values_for(d_vec(2), 3)); v2 = build(m2, "v", d_vec(3), values_for(d_vec(3), 4))
+    for rnd in range(3):
+        for (mm, A, v, dA, dv, sa, sv) in ((m1, A1, v1, d_mat(2, 2), d_vec(2), 1, 3), (m2, A2, v2, d_mat(2, 3), d_vec(3), 2, 4)):
+            R = mm.converter(f"R{rnd}"); R.equation = A.dot(v)
+            _, got = observe(R)
+            exp = np.dot(np_array(dA, values_for(dA, sa)), np_array(dv, values_for(dv, sv)))
+            rows["two models side by side"] = rows.get("two models side by side", 0) + 1
+            dd = compare_values(got, {(str(i),): float(exp[i]) for i in range(len(exp))}, exact=False)
+            if dd is not None:
+                note_violation("wrong-value:two-models", 33, f"two models with an element A of different shapes, A.dot(v) in turn: {dd}", {"kind": "two-models"})
+    return rows
+
+
 # ------------------------------------------------------------------ probes and Gen file
 def probe():
     facts = {}
@@ -1263,6 +1489,21 @@ def probe():
         except Exception:
             pass
     facts["elementwise_dimensions_compared"] = chk_
+    # KindCfg.constantKeepsEquation: a Constant target either refuses the operator or shows its entries
+    try:
+        m = new_model()
+        a = build(m, "a", d_vec(2), {("0",): 1.0, ("1",): 2.0})
+        C = m.constant("C")
+        C.equation = a * 2.0
+        facts["constant_target_keeps_equation"] = [C[i](1.0) for i in range(2)] == [2.0, 4.0]
+    except Exception:
+        facts["constant_target_keeps_equation"] = True          # refused: nothing is shown
+    # TgtCfg.resetTarget: an arrayed equation replaces the sub-elements of a target that already has some
+    try:
+        r_ = run_reuse(REUSE_EQS[0][1], REUSE_EQS[1][1])
+        facts["target_reset_on_arrayed_assignment"] = r_[1] is not None and sorted(r_[1]) == [("0",), ("1",)]
+    except Exception:
+        facts["target_reset_on_arrayed_assignment"] = False
     return facts
 
 
@@ -1283,6 +1524,18 @@ def gen_lean(facts, dim_rows=()):
             "theorem holds : C10_full := C10_full_holds\n#print axioms holds\n"
             "theorem holds_wave2 : C10_wave2 := C10_wave2_holds\n#print axioms holds_wave2\n"
             + dims_part
+            + ("def kindCfg : KindCfg := { constantKeepsEquation := true }\n"
+               "theorem target_kinds_hold : C10_target_kinds kindCfg := C10_target_kinds_of_good kindCfg (by decide)\n"
+               if facts.get("constant_target_keeps_equation") else
+               "/-- probed: a Constant target drops an operator equation and keeps 0 (known finding constant-target-operator-dropped) -/\n"
+               "def kindCfg : KindCfg := { constantKeepsEquation := false }\n"
+               "theorem target_kinds_violated : ¬ C10_target_kinds kindCfg := C10_target_kinds_witness kindCfg (by decide)\n")
+            + ("def tgtCfg : TgtCfg := { resetTarget := true }\n"
+               "theorem target_holds : C10_target_full tgtCfg := C10_target_full_of_good tgtCfg (by decide)\n#print axioms target_holds\n"
+               if facts.get("target_reset_on_arrayed_assignment") else
+               "/-- probed: an arrayed equation ADDS to the sub-elements its target already has -/\n"
+               "def tgtCfg : TgtCfg := { resetTarget := false }\n"
+               "theorem target_violated : ¬ C10_target_full tgtCfg := C10_target_witness tgtCfg (by decide)\n#print axioms target_violated\n")
             + ("/-- probed: arrayed_term re-clones the operand with the asked index at every level -/\n"
                "def cfg : Cfg := { reindexAll := true }\n"
                "theorem holds_nested : C10_nested_full cfg := C10_nested_full_of_good cfg (by decide)\n#print axioms holds_nested\n"
@@ -1305,7 +1558,9 @@ def gen_lean(facts, dim_rows=()):
             "end Bptk.C10.Gen\n")
 
 
-COMBOS = [(zs, k) for zs in (100, 101, 102, 110, 111, 112, 113) for k in ("constant", "converter")] + [(0, "constant")]
+COMBOS = ([(zs, k) for zs in (100, 101, 102, 110, 111, 112, 113) for k in ("constant", "converter")] + [(0, "constant")]
+          # wave 7: set-up with one default value, int lists, decimals/large values, stock / flow / computed entries
+          + [(111, "default"), (117, "converter"), (118, "converter"), (118, "constant"), (0, "stock"), (100, "stock"), (111, "flow"), (0, "timed")])
 
 
 # ------------------------------------------------------------------ the check
@@ -1371,7 +1626,9 @@ def run(chk):
         chk.case((form, da, db), nontrivial=nontriv, sample=txt + " -> " + line[:80] if nontriv and form == "dot" and line != "none" else None)
         dist[form] = dist.get(form, 0) + 1
         dist["accepted" if line != "none" else "rejected"] = dist.get("accepted" if line != "none" else "rejected", 0) + 1
-        exp = spec(form, da, db, va, vb)
+        import numpy as np
+        with np.errstate(all="ignore"):
+            exp = spec(form, da, db, va, vb)
         size = sum(len(d[1]) * max(1, len(d[2])) for d in (da, db) if d is not None and d[0] == "el")
         rep = {"kind": "binary", "form": form, "a": da, "b": db, "salt": 0}
         if exp is None and line != "none":
@@ -1393,6 +1650,8 @@ def run(chk):
                     unsupported += 1
                     continue
                 dist["value_tables"] = dist.get("value_tables", 0) + 1
+                kd = chk.cov.setdefault("value_table_kinds", {})
+                kd[f"{zs}/{zkind}"] = kd.get(f"{zs}/{zkind}", 0) + 1
                 if zline != line:
                     key = "acceptance-depends-on-values" if (zline == "none") != (line == "none") else "value-dependent-codegen"
                     import numpy as np
@@ -1413,7 +1672,7 @@ def run(chk):
                     zexp = spec(form, da, db, zva, zvb)
                 if zexp is None:
                     continue
-                zd = compare_values(zvals, zexp, exact=(form != "div"))
+                zd = compare_values(zvals, zexp, exact=(form != "div" and zs % 1000 != 118))
                 if zd is not None:
                     note_violation(f"wrong-value:{'nmul' if req[-1].startswith('expand nmul') else form}", size,
                                    f"{txt} with value table {zs} held by {zkind}s: element {zd[0]} evaluates to {zd[1]!r}, numpy gives {zd[2]}",
@@ -1464,7 +1723,7 @@ def run(chk):
                 continue
             with np.errstate(all="ignore"):
                 zexp = spec_agg(g, d, zva)
-            if zexp is not None and not close(zvals[()], zexp, exact=g0 in ("sum", "prod", "size", "rank")):
+            if zexp is not None and not close(zvals[()], zexp, exact=g0 in ("sum", "prod", "size", "rank") and zs % 1000 != 118):
                 note_violation(f"wrong-value:{g0}", size, f"{g}({describe(d)}) with value table {zs} held by {zkind}s evaluates to {zvals[()]!r}, numpy gives {zexp}",
                                dict(rep, observed=repr(zvals[()]), expected=zexp))
         if g in ("sum", "prod"):
@@ -1562,7 +1821,7 @@ def run(chk):
                         note_violation("wrong-value:nested-dot-operand" if "dot" in txt else "wrong-value:nested", 100 + len(txt),
                                        f"{txt} with value table {zs} held by {zkind}s: element {dd[0]} evaluates to {dd[1]!r}, numpy gives {dd[2]}",
                                        dict(rep, salt=zs, elem_kind=zkind, index=dd[0], observed=repr(dd[1]), expected=dd[2]))
-        if ti % (6 if chk.quick else 2) == 0 or (acc and dep >= 2 and ti % (5 if chk.quick else 2) == 0):
+        if ti % (9 if chk.quick else 2) == 0 or (acc and dep >= 2 and ti % (8 if chk.quick else 2) == 0):
             stock_pool.append((t, shape, named, exp))
     chk.cov["nested_trees_in_model"] = ndist
     # ---- Stock targets (item 3): flat pairs, nested trees and arrayed-element equations on fresh / arrayed stocks
@@ -1570,7 +1829,7 @@ def run(chk):
                 ("el", "M", d_mat(2, 2)), ("el", "N", d_mat(1, 2)), ("el", "P", d_mat(2, 1)), ("el", "na", d_nvec("ab")), ("el", "nb", d_nvec("ba"))]
     for x in flat_ops:
         for y in flat_ops:
-            for f in ("add", "mul", "sub", "div", "dot"):
+            for f in (("add", "div", "dot") if chk.quick else ("add", "mul", "sub", "div", "dot")):
                 if (x[0] == "num" and (y[0] == "num" or f == "dot")):
                     continue
                 t = ("op", f, x, y)
@@ -1694,6 +1953,8 @@ def run(chk):
                                else "use " + (tree_show(_show_rt(_tup(o[1]))) if o[0] == "U" else f"{o[2]}.arr_{o[1]}")) for o in small)
             note_violation(key, len(small), f"after the history [{steps}]: {text}", {"kind": "history", "ops": small})
     chk.cov["reshape_histories"] = hdist
+    # ---- wave 7: further API surfaces (target re-use, operator object re-use, plot channel, flow / constant targets, two models)
+    chk.cov["surface_rows"] = run_surfaces(chk, note_violation, facts)
     # ---- model side
     model = [canon_assign(x) for x in drive("C10", req)]
     chk.cov["traces_validated_against_impl"] = len(req)
@@ -1826,6 +2087,21 @@ def replay(path):
             else:
                 print("set-up", o)
         return 1 if any(x[3] is not None for x in res) else 0
+    if kind == "reuse":
+        t1, t2 = _tup(r["first"]), _tup(r["second"])
+        line, got, qline, qgot, exc, vals = run_reuse(t1, t2)
+        _, _, exp = spec_tree(t2, vals)
+        exp = {k: float(v) for k, v in exp.items()}
+        print("R.equation =", tree_show(t1), "; then R.equation =", tree_show(t2)); print("R:", line[:200], got, exc); print("numpy:", exp)
+        if r.get("then"):
+            print("Q = R + R:", qline[:200], qgot)
+            return 1 if (qgot is None or compare_values(qgot, {k: 2.0 * v for k, v in exp.items()}, exact=False)) else 0
+        return 1 if compare_values(got, exp, exact=False) else 0
+    if kind == "objreuse":
+        t = _tup(r["tree"])
+        l1, l2, g2, exc = run_object_reuse(t)
+        print("same operator object in two converters:", tree_show(t)); print("first :", l1[:300]); print("second:", l2[:300])
+        return 1 if l1 != l2 else 0
     if kind == "ragged":
         acc, val = run_ragged(r["agg"], r["rows"])
         print("case:", r["agg"], r["rows"], "->", acc, val, "expected", r.get("expected"))
